@@ -6,7 +6,7 @@ RULE = ('line part: correspondence line_bbox / line_sbb (Line::bounding_box, sty
         '300 long x widths up to 40: every points()/pixels() item and every pixel drawn on both recording targets lies in the '
         '(styled) bounding box, width <= 1 boxes coincide, transparent styles yield nothing.')
 PARTIAL = ['C02_line_thick_in_bbox_grid_partial (full statement: thick_in_box l w for ALL lines and stroke widths; proved for '
-           '|dx|,|dy| <= 14, w <= 9 by computation; stroke width <= 1 is proved for all lines)']
+           '|dx|,|dy| <= 24, w <= 16 by computation + rotation/translation symmetry; stroke width <= 1 is proved for all lines)']
 TRUSTED = []
 ASSUMPTIONS = []
 
